@@ -420,7 +420,7 @@ NUM_SPELL = [lambda v: repr(float(v)), lambda v: (str(int(v)) if float(v).is_int
 def loader_cases(tier):
     ns = [1, 2, 3, 4] if tier == "quick" else [1, 2, 3, 4, 5, 80]
     cases = []
-    for kind in ("tlt-sorted", "tlt-unsorted", "tlt-repeated", "dose", "ctffind4", "gctf", "gctf-phase", "gctf-extra", "gctf-reordered", "mdoc-dose-prior", "array", "dose-csv", "dose-csv-removed"):
+    for kind in ("tlt-sorted", "tlt-unsorted", "tlt-repeated", "dose", "ctffind4", "gctf", "gctf-phase", "gctf-extra", "gctf-reordered", "gctf-names-unordered", "mdoc-dose-prior", "array", "dose-csv", "dose-csv-removed"):
         for n in ns:
             for spell in range(len(NUM_SPELL)):
                 for nl in (True, False):
@@ -553,6 +553,8 @@ def exec_loader(case, obs):
         if kind == "gctf-extra":
             labels = ["rlnVoltage"] + labels + ["rlnFinalResolution"]
             cols = [["300.000000"] * n] + cols + [[sp(3.5 + i).strip() for i in range(n)]]
+        if kind == "gctf-names-unordered":   # rows are taken in FILE order: names without zero padding, listed descending
+            cols[0] = [f"ts_sec{n - i}.mrc" for i in range(n)]
         if kind == "gctf-reordered":   # columns are found by label: angle and phase shift BEFORE the two defocus values, V before U
             labels = ["rlnDefocusAngle", "rlnPhaseShift", "rlnMicrographName", "rlnDefocusV", "rlnDefocusU"]
             cols = [cols[3], [sp(p).strip() for p in PH], cols[0], cols[2], cols[1]]
